@@ -84,8 +84,10 @@ Resolve1(h, id, skip) ==
       FD   == {i \in LD : h[i].path = <<>>}               \* its file-scope declarations
       Defs == {i \in FD : h[i].def # "none"}              \* external definitions (6.9p5, 6.9.2p1)
       kinds == {h[i].kind : i \in LD}
-      first == CHOOSE i \in I : \A j \in I : i <= j
-      sym  == IF h[first].asm THEN Label(id) ELSE id
+      (* __asm__ label (GNU extension, property text: "used verbatim"): the entity with linkage is named by the   *)
+      (* label of its first declaration; a labelled block-scope static is named by its label, without .L and id. *)
+      firstL == IF LD = {} THEN 0 ELSE CHOOSE i \in LD : \A j \in LD : i <= j
+      sym  == IF firstL # 0 /\ h[firstL].asm THEN Label(id) ELSE id
       (* ---- constraint violations (a diagnostic is required) ---- *)
       E_tlsblock == \E i \in I : h[i].path # <<>> /\ h[i].tls /\ h[i].sc = "none"                      \* 6.7.1p3
       E_funcsc   == \E i \in I : h[i].path # <<>> /\ h[i].kind = "func" /\ h[i].sc = "static"          \* 6.7.1p7
@@ -101,6 +103,9 @@ Resolve1(h, id, skip) ==
       U_kind  == Cardinality(kinds) > 1                                                                \* 6.2.7p2
       U_redef == LS = {"ext"} /\ Cardinality(Defs) > 1                                                 \* 6.9p5
       U_inl   == LS = {"ext"} /\ kinds = {"func"} /\ Defs = {} /\ \E i \in LD : h[i].inl               \* 6.7.4p7
+      (* not C11: whether a label given on a block-scope declaration also names declarations of the entity in    *)
+      (* other scopes is not specified by the extension (gcc: yes, cproc: no) -- unjudged                         *)
+      U_asm   == \E i \in LD : h[i].asm /\ h[i].path # <<>> /\ \E j \in LD : h[j].path # h[i].path
       (* Verdict.  A constraint violation needs a diagnostic even if the unit also has undefined       *)
       (* behaviour (5.1.1.3p1); but a constraint that speaks about "the same object or function" is    *)
       (* only judged where 6.2.2p7 / 6.2.7p2 leave the identity of the entity intact.                   *)
@@ -117,6 +122,7 @@ Resolve1(h, id, skip) ==
         ELSE IF E_usedundef THEN <<"error", "6.9p3-internal-used-undefined">>
         ELSE IF U_redef THEN <<"ub", "6.9p5">>
         ELSE IF U_inl THEN <<"ub", "6.7.4p7">>
+        ELSE IF U_asm THEN <<"ub", "asm-label-on-block-scope-declaration">>
         ELSE <<"ok", "">>
       err == IF verdict[1] = "error" THEN verdict[2] ELSE ""
       ub  == IF verdict[1] = "ub" THEN verdict[2] ELSE ""
@@ -136,10 +142,15 @@ Resolve1(h, id, skip) ==
                ELSE {[id |-> id, sym |-> sym, ent |-> 0, kind |-> kind, export |-> emitted = "exported",
                       thread |-> thr, zero |-> (ndefs = 0), at |-> defat]}
       SD    == {i \in I : L[i] = "none" /\ h[i].kind = "obj" /\ h[i].sc = "static"}    \* block-scope statics
-      sdefs == {[id |-> id, sym |-> id, ent |-> i, kind |-> "obj", export |-> FALSE, thread |-> h[i].tls,
-                 zero |-> (h[i].def = "none"), at |-> i] : i \in SD}
+      sdefs == {IF h[i].asm
+                THEN [id |-> id, sym |-> Label(id), ent |-> 0, kind |-> "obj", export |-> FALSE, thread |-> h[i].tls,
+                      zero |-> (h[i].def = "none"), at |-> IF h[i].def = "none" THEN 0 ELSE i]
+                ELSE [id |-> id, sym |-> id, ent |-> i, kind |-> "obj", export |-> FALSE, thread |-> h[i].tls,
+                      zero |-> (h[i].def = "none"), at |-> i] : i \in SD}
       UseOf(i) == IF L[i] # "none"
                   THEN [at |-> i, id |-> id, cls |-> "glob", sym |-> sym, thr |-> (kind = "obj" /\ thr), ent |-> 0]
+                  ELSE IF h[i].sc = "static" /\ h[i].asm
+                  THEN [at |-> i, id |-> id, cls |-> "glob", sym |-> Label(id), thr |-> h[i].tls, ent |-> 0]
                   ELSE IF h[i].sc = "static"
                   THEN [at |-> i, id |-> id, cls |-> "static", sym |-> id, thr |-> h[i].tls, ent |-> i]
                   ELSE [at |-> i, id |-> id, cls |-> "auto", sym |-> "", thr |-> FALSE, ent |-> i]
@@ -463,7 +474,9 @@ Next ==
        \E f \in (IF Family = "tentative" THEN TentForms ELSE IF p = <<>> THEN FileForms ELSE BlockForms) :
          LET firstdecl == ~\E j \in 1..Len(hist) : hist[j].id = id IN
          /\ MixKinds \/ \A j \in 1..Len(hist) : hist[j].id = id => hist[j].kind = f.kind
-         /\ a => (firstdecl /\ p = <<>> /\ f.def # "body")
+         /\ a => /\ firstdecl
+                 /\ \/ p = <<>> /\ f.def # "body"
+                    \/ p # <<>> /\ f.kind = "obj" /\ f.sc \in {"static", "extern"}     \* labelled block-scope static / extern
          /\ (AsmFirst /\ firstdecl) => a
          /\ f.kind \in Kinds
          /\ Family = "tentative" =>
@@ -487,7 +500,7 @@ Inv_Refines ==
 Inv_OneDef ==
   LET p == Proj(mOff, {}, SkipSafe) IN
   p.cls = "ok" => /\ p.ndefs = Cardinality(p.defs)
-                  /\ \A a, b \in p.defs : (a.id = b.id /\ a.ent = b.ent) => a = b
+                  /\ \A a, b \in p.defs : (a.id = b.id /\ a.ent = b.ent /\ a.sym = b.sym) => a = b
 
 (* exported => external linkage *)
 Inv_ExportedExt ==
